@@ -69,6 +69,8 @@ def _convert(v):
     if isinstance(v, (S.Sphere, S.Circle)):
         return _ball(v)
     if isinstance(v, coxeter.shapes.base_classes.Shape):
+        if hasattr(type(v), "vertices"):
+            return {"shape_class": type(v).__name__, "vertices": np.array(v.vertices, dtype=float)}
         return {"shape_class": type(v).__name__, "repr": repr(v)}
     return v
 
